@@ -27,20 +27,30 @@ def checkRead (s : St) (d : List Rat) (nops : Nat) (go : List V) : List (String 
     let tolVar := 16 * n * eps * (M * D + D * D)
     let tolMs := 8 * n * eps * M * M
     let sq (v : V) : V := match v with | .fin q => .fin (q * q) | v => v
+    -- the top of the float64 range: a sum, a square or a sum of squared deviations beyond it is an infinity (or a
+    -- NaN once an infinity has been averaged in) in every formula of this shape - accepted exactly then
+    let big : Rat := pow2 1024 - pow2 970
+    let nonFin (v : V) : Bool := match v with | .fin _ => false | _ => true
+    let totalOver := sumAbs ≥ big                      -- some order of adding may pass the end of the range
+    let sqOver := M * M ≥ big                          -- a single square overflows
+    let m2 : Rat := s.variance * ((s.count - 1 : Nat) : Rat)
+    -- (Combine squares the difference of the two means before scaling it by n_a·n_b/n)
+    let span : Rat := if s.count ≥ 1 then s.max - s.min else 0
+    let m2Over := m2 ≥ big / 2 || span * span ≥ big / 2
     [ ("count", gc == .fin s.count, s!"go={gc.str} model={s.count}"),
       ("weight", gw == .fin s.count, s!"go={gw.str} model={s.count}"),
-      ("total", closeV gt (.fin s.total) tolTotal 0, s!"go={gt.str} model={ratStr s.total}") ] ++
+      ("total", closeV gt (.fin s.total) tolTotal 0 || (totalOver && nonFin gt), s!"go={gt.str} model={ratStr s.total}") ] ++
     (if s.count ≥ 1 then
       [ ("min", gmin == .fin s.min, s!"go={gmin.str} model={ratStr s.min}"),
         ("max", gmax == .fin s.max, s!"go={gmax.str} model={ratStr s.max}"),
         ("mean", closeV gmean (.fin s.mean) tolMean 0, s!"go={gmean.str} model={ratStr s.mean}"),
-        ("rms", closeV (sq grms) (.fin s.meanSq) tolMs (4 * eps), s!"go^2={(sq grms).str} model={ratStr s.meanSq}"),
-        ("rms-sign", (match grms with | .fin q => decide (q ≥ 0) | _ => false), s!"go={grms.str}") ]
+        ("rms", closeV (sq grms) (.fin s.meanSq) tolMs (4 * eps) || (sqOver && nonFin grms), s!"go^2={(sq grms).str} model={ratStr s.meanSq}"),
+        ("rms-sign", (match grms with | .fin q => decide (q ≥ 0) | _ => sqOver), s!"go={grms.str}") ]
      else []) ++
     (if s.count ≥ 2 then
-      [ ("variance", closeV gvar (.fin s.variance) tolVar 0, s!"go={gvar.str} model={ratStr s.variance}"),
-        ("stddev", closeV (sq gsd) (.fin s.variance) tolVar (4 * eps), s!"go^2={(sq gsd).str} model={ratStr s.variance}"),
-        ("stddev-sign", (match gsd with | .fin q => decide (q ≥ 0) | _ => false), s!"go={gsd.str}") ]
+      [ ("variance", closeV gvar (.fin s.variance) tolVar 0 || (m2Over && gvar == .pinf), s!"go={gvar.str} model={ratStr s.variance}"),
+        ("stddev", closeV (sq gsd) (.fin s.variance) tolVar (4 * eps) || (m2Over && gsd == .pinf), s!"go^2={(sq gsd).str} model={ratStr s.variance}"),
+        ("stddev-sign", (match gsd with | .fin q => decide (q ≥ 0) | _ => m2Over), s!"go={gsd.str}") ]
      else [])
   | _ => [("readout-shape", false, "expected 9 fields")]
 
